@@ -1221,6 +1221,24 @@ class ManifestRecursiveLoader:
         # (a Manifest found in @path itself is referenced a level up)
         manifest_stack = list(reversed(
             self._iter_manifests_for_path(path)))
+
+        # the walk does not meet the Manifests above @path: bring
+        # the MANIFEST entries referencing them up to date here
+        # (keeping their hash sets), so that the updated directory
+        # verifies afterwards
+        for mpath, relpath, m in manifest_stack:
+            for e in m.entries:
+                if e.tag != 'MANIFEST':
+                    continue
+                fullpath = os.path.join(relpath, e.path)
+                mdir = os.path.dirname(fullpath)
+                if (fullpath in self.loaded_manifests and mdir != path
+                        and path_starts_with(path, mdir)):
+                    if update_entry_for_path(
+                            os.path.join(self.root_directory, fullpath),
+                            e,
+                            expected_dev=self.manifest_device):
+                        self.updated_manifests.add(mpath)
         directory_ids = {}
         # Manifests met during the walk (they have a MANIFEST entry)
         linked_manifests = set()
